@@ -43,25 +43,32 @@ func C15(c *Ctx) {
 	setM := c.fn("sio", "Crew", "SetMachine")
 	delM := c.fn("sio", "Crew", "DeleteMachine")
 	getC := c.fn("sio", "Crew", "GetChanged")
-	change := c.fn("sio", "Crew", "change")
+	// (the get-or-create helper of the change cache is one way to obtain the cache entry for a machine; the entry is
+	// recognised as a construct, see changeRecordKey, so the helper need not exist)
+	change := c.P.Func("sio", "Crew", "change")
+	if change != nil && change.Blocks == nil {
+		change = nil
+	}
 	doOp := c.fn("sio", "Crew", "DoOp")
-	if runM == nil || setM == nil || delM == nil || getC == nil || change == nil || doOp == nil {
+	if runM == nil || setM == nil || delM == nil || getC == nil || doOp == nil {
 		return
 	}
-	c.R.Fn(fname(runM), fname(setM), fname(delM), fname(getC), fname(change), fname(doOp))
+	c.R.Fn(fname(runM), fname(setM), fname(delM), fname(getC), fname(doOp))
+	if change != nil {
+		c.R.Fn(fname(change))
+	}
 	isChangeField := func(addr ssa.Value, field string) bool {
 		if !ssau.IsField(addr, prog.Abs("sio"), "Changed", field) {
 			return false
 		}
 		_, _, base, _ := ssau.FieldOf(addr)
-		cl, ok := base.(*ssa.Call)
-		return ok && cl.Common().StaticCallee() == change
+		return isChangeRecord(base)
 	}
 	// ---- R1 RunMachine
 	// (in RunMachine, or in the helper of package sio it hands the walk to)
 	var applies, reports []*ssa.Store
 	for _, rf := range pkgClosure(runM) {
-		if prog.PkgOf(rf) != "sio" || rf == change || rf == setM || rf == delM {
+		if prog.PkgOf(rf) != "sio" || (change != nil && rf == change) || rf == setM || rf == delM {
 			continue
 		}
 		ssau.Instrs(rf, func(in ssa.Instruction) {
@@ -260,7 +267,7 @@ func C15(c *Ctx) {
 					}
 				}
 				_, _, base, _ := ssau.FieldOf(st.Addr)
-				if cl, isCall := base.(*ssa.Call); isCall && cl.Common().StaticCallee() == change {
+				if isChangeRecord(base) {
 					pending = true // c.change(mid).Deleted = false
 				}
 				if pending && !p.inCycle {
@@ -352,21 +359,27 @@ func C15(c *Ctx) {
 	}
 	// DeleteMachine
 	delApply, delReport := false, false
+	// (unconditionally: the block is the entry or lies on every way from the entry to a return — the get-or-create of
+	// the cache entry may branch in between)
+	delPD := flow.NewPostDom(delM)
+	always := func(in ssa.Instruction) bool {
+		return in.Parent() == delM && (in.Block() == delM.Blocks[0] || delPD.PostDominates(in.Block(), delM.Blocks[0]))
+	}
 	ssau.Instrs(delM, func(in ssa.Instruction) {
 		if ci, ok := in.(ssa.CallInstruction); ok {
 			if b, isB := ci.Common().Value.(*ssa.Builtin); isB && b.Name() == "delete" {
-				if _, is := ssau.LoadOfField(ci.Common().Args[0], prog.Abs("sio"), "Crew", "Machines"); is {
+				if _, is := ssau.LoadOfField(ci.Common().Args[0], prog.Abs("sio"), "Crew", "Machines"); is && always(in) {
 					delApply = true
 				}
 			}
 		}
-		if st, ok := in.(*ssa.Store); ok && isChangeField(st.Addr, "Deleted") {
+		if st, ok := in.(*ssa.Store); ok && isChangeField(st.Addr, "Deleted") && always(in) {
 			if cst, isC := st.Val.(*ssa.Const); isC && cst.Value != nil && cst.Value.String() == "true" {
 				delReport = true
 			}
 		}
 	})
-	c.R.Check(delApply && delReport && len(delM.Blocks) == 1, "C15-R1", "DeleteMachine: removed and reported", c.P.Pos(delM.Pos()), "delete from the crew and Changed.Deleted = true, unconditionally", "a deletion is not both applied and reported")
+	c.R.Check(delApply && delReport, "C15-R1", "DeleteMachine: removed and reported", c.P.Pos(delM.Pos()), "delete from the crew and Changed.Deleted = true, unconditionally", "a deletion is not both applied and reported")
 	// every removal of a crew member anywhere in package sio is reported as a deletion on every path that follows
 	nrem := 0
 	for _, f := range c.P.FuncsIn("sio") {
@@ -398,7 +411,7 @@ func C15(c *Ctx) {
 					return
 				}
 				_, _, base, _ := ssau.FieldOf(st.Addr)
-				if cl, isCl := base.(*ssa.Call); !isCl || len(cl.Common().Args) < 2 || cl.Common().Args[1] != ci.Common().Args[1] {
+				if k, isRec := changeRecordKey(base, 0); !isRec || !sameKeyValue(k, ci.Common().Args[1]) {
 					return
 				}
 				if st.Block() == in.Block() && flow.Index(in) < flow.Index(st) || st.Block() != in.Block() && pd.PostDominates(st.Block(), in.Block()) {
@@ -439,7 +452,7 @@ func C15(c *Ctx) {
 		// GetChanged reads change.F and produces it
 		reads, writes := false, false
 		for _, gf := range pkgClosure(getC) {
-			if gf == change {
+			if change != nil && gf == change {
 				continue
 			}
 			ssau.Instrs(gf, func(in ssa.Instruction) {
@@ -643,8 +656,7 @@ func c15Writers(c *Ctx, change *ssa.Function) {
 						return
 					}
 					_, _, rb, _ := ssau.FieldOf(r.Addr)
-					cl, isC := rb.(*ssa.Call)
-					if !isC || cl.Common().StaticCallee() != change {
+					if !isChangeRecord(rb) {
 						return
 					}
 					if flow.CoveredBy(st.Block(), r.Block()) {
@@ -661,8 +673,7 @@ func c15Writers(c *Ctx, change *ssa.Function) {
 							return false
 						}
 						_, _, rb, _ := ssau.FieldOf(r.Addr)
-						cl, isC := rb.(*ssa.Call)
-						return isC && cl.Common().StaticCallee() == change
+						return isChangeRecord(rb)
 					}
 					if f.Parent() == nil && !flow.InCycle(st.Block()) {
 						covered = coveredAfter(f, st.Block(), flow.Index(st), flow.StableFacts(flow.FactsAt(st.Block())), isRecord, all, 0)
